@@ -95,6 +95,14 @@ def gen_config(rnd, *, seg=None, ndim=None, allow_optional=True, per_axis=True, 
         cfg["id_repr"] = rnd.choice(["np.int64", "np.int64", "np.uint64", "np.intp"])
     if rnd.random() < 0.2:
         cfg["seq_repr"] = "list"
+    if seg and rnd.random() < 0.2:
+        # the same label values in another memory layout: Fortran order, a crop (view) of a larger
+        # array, an axis-moved view
+        cfg["seg_layout"] = rnd.choice(["F", "crop", "moveaxis"])
+    if seg and rnd.random() < 0.25:
+        cfg["pix_dtype"] = rnd.choice(["uint32", "uint64", "intp", "int32"])  # index arrays of a stroke
+    if not seg and rnd.random() < 0.15:
+        cfg["int_first_axis"] = True  # first coordinate an integer (a z-slice index), others fractional
     if allow_stray and seg and not cfg.get("static") and rnd.random() < 0.15:
         # the label image also holds detections that are no nodes of the solution ("unselected
         # detections", which the annotators skip): they must survive everything untouched
@@ -372,6 +380,17 @@ class World:
         for nd in order:
             if nd["parent"] is not None:
                 g.add_edge(nd["parent"], nd["id"], **{CUSTOM_EDGE: nd[CUSTOM_EDGE]})
+        if cfg.get("id_repr"):
+            # the graph's own time / id attributes as numpy integers too (filled from arrays)
+            for n in g.nodes:
+                g.nodes[n][self.time_key] = self.rep(g.nodes[n][self.time_key])
+        if cfg.get("int_first_axis") and not cfg["seg"]:
+            for n in g.nodes:
+                if cfg["pos_mode"] == "axes":
+                    g.nodes[n][axes[0]] = int(g.nodes[n][axes[0]])
+                else:
+                    p_ = g.nodes[n][cfg["pos_key"]]
+                    g.nodes[n][cfg["pos_key"]] = [int(p_[0]), *p_[1:]]
         self.stray0 = {}
         for sd in init.get("stray") or []:
             if seg is not None and sd["label"] not in g:
@@ -390,10 +409,11 @@ class World:
                 perm.shuffle(lrank)
             for i, cls in zip(trank, tcls):
                 for n in cls:
-                    g.nodes[n][tkey] = o1 + 2 * i  # 0-based ids occur (o1 == 0)
+                    g.nodes[n][tkey] = self.rep(o1 + 2 * i)  # 0-based ids occur (o1 == 0)
             for i, cls in zip(lrank, lcls):
                 for n in cls:
-                    g.nodes[n][lkey] = o2 + 3 * i
+                    g.nodes[n][lkey] = self.rep(o2 + 3 * i)
+        seg = self._layout(seg)
         if cfg.get("seg_axes"):
             self._init_seg_axes(g, seg, axes, tkey, lkey)
             return
@@ -528,6 +548,20 @@ class World:
         out.emitted = list(self.emissions)
         return out
 
+    def _layout(self, seg):
+        kind = self.cfg.get("seg_layout")
+        if seg is None or kind is None:
+            return seg
+        if kind == "F":
+            return np.asfortranarray(seg)
+        if kind == "crop":
+            big = np.zeros(tuple(s_ + 2 for s_ in seg.shape), dtype=seg.dtype)
+            view = big[tuple(slice(1, -1) for _ in seg.shape)]
+            view[...] = seg
+            return view
+        moved = np.ascontiguousarray(np.moveaxis(seg, 0, -1))  # time last in memory
+        return np.moveaxis(moved, -1, 0)
+
     def rep(self, x):
         """The caller's representation of an id / time / label: Python int (default), or the
         numpy integer a label layer or a table hands over (cfg["id_repr"]); equal by value."""
@@ -552,7 +586,8 @@ class World:
                     attrs[k_] = rep(attrs[k_])
             pixels = None
             if op.get("pixels") is not None:
-                pixels = tuple(np.asarray(a, dtype=np.int64) for a in op["pixels"])
+                pdt = np.dtype("int64" if op.get("bad_pixels") else (self.cfg.get("pix_dtype") or "int64"))
+                pixels = tuple(np.asarray(a, dtype=pdt) for a in op["pixels"])
             # (an id the label dtype cannot hold stays a Python int: numpy scalars wrap silently)
             node = op["node"] if op.get("bad_pixels") == "label_beyond_dtype" else rep(op["node"])
             out.action = ua.UserAddNode(tr, node, attrs, pixels=pixels, force=op.get("force", False))
@@ -600,12 +635,13 @@ class World:
         seg = tr.segmentation
         t = int(op["time"])
         value = int(op["value"])
-        sp = tuple(np.asarray(a, dtype=np.int64) for a in op["pixels"])
-        full = (np.full(len(sp[0]), t, dtype=np.int64), *sp)
+        pdt = np.dtype(self.cfg.get("pix_dtype") or "int64")
+        sp = tuple(np.asarray(a, dtype=pdt) for a in op["pixels"])
+        full = (np.full(len(sp[0]), t, dtype=pdt), *sp)
         sf = op.get("second_frame")
         if sf is not None:  # stroke data spanning two time points (an invalid argument)
-            sp2 = tuple(np.asarray(a, dtype=np.int64) for a in sf["pixels"])
-            full2 = (np.full(len(sp2[0]), int(sf["time"]), dtype=np.int64), *sp2)
+            sp2 = tuple(np.asarray(a, dtype=pdt) for a in sf["pixels"])
+            full2 = (np.full(len(sp2[0]), int(sf["time"]), dtype=pdt), *sp2)
             parts = (full2, full) if sf.get("first") else (full, full2)
             full = tuple(np.concatenate([a, b]) for a, b in zip(*parts))
         old = seg[full].copy()
